@@ -366,6 +366,14 @@ func c12ChunkedParts(kind string, rng *Rng) {
 	verdict(r1.Status == 200 && r2.Status == 200, fmt.Sprintf("%s: chunked part uploads, without and with the Content-MD5 of their payload, are accepted (%d, %d)", kind, r1.Status, r2.Status))
 	verdict(r3.Status >= 400, fmt.Sprintf("%s: a chunked part whose decoded length differs from the declared one is refused (%d)", kind, r3.Status))
 	verdict(r4.Status >= 400, fmt.Sprintf("%s: a chunked part sent with the Content-MD5 of other bytes is refused (%d)", kind, r4.Status))
+	// what follows the closing chunk of a part is checked like it is for an object: anything but a chunk
+	// header there is a malformed stream, also when payload and declared length agree
+	for ti, tail := range []string{"garbage", "\r\nmore", "zz;chunk-signature=0\r\n"} {
+		stream := append(encodeChunks(splitChunks(p2, []int{64})), []byte(tail)...)
+		r := do(s.h, Req{Method: "PUT", Path: "/" + b + "/mpc?uploadId=" + queryEscape(id) + "&partNumber=" + strconv.Itoa(5+ti), Body: stream, Header: [][2]string{
+			{"X-Amz-Content-Sha256", "STREAMING-AWS4-HMAC-SHA256-PAYLOAD"}, {"X-Amz-Decoded-Content-Length", strconv.Itoa(len(p2))}}})
+		verdict(r.Status >= 400, fmt.Sprintf("%s: a chunked part followed by %q after its closing chunk is refused (%d)", kind, tail, r.Status))
+	}
 	lp := s.ListParts(b, "mpc", id, -1, -1)
 	verdict(fmt.Sprint(lp.Nums) == "[1 2]", fmt.Sprintf("%s: the upload holds exactly the two accepted parts: %v", kind, lp.Nums))
 	if r1.Status == 200 && r2.Status == 200 {
